@@ -680,4 +680,300 @@ theorem obs_readCard (c : WCard) (hfirst : isCommentCard c.first = false) (hn : 
     have h0 : sq [] = [] := rfl
     simp [sq_rstrip, sq_lstrip, h0]
 
+/-! ## 7. the lines `_wrap_line` produces -/
+
+theorem chain_ne : ∀ (cs : List Str), Chain cs → ∀ c ∈ cs, c ≠ []
+  | [], _, c, hc => by simp at hc
+  | a :: rest, h, c, hc => by
+    simp only [List.mem_cons] at hc
+    rcases hc with rfl | hc
+    · exact Chain.head_ne h
+    · exact chain_ne rest (Chain.tail h) c hc
+
+theorem splitChunks_ne (t : Str) (h : Clean t) : ∀ c ∈ splitChunks t, c ≠ [] :=
+  chain_ne _ (splitChunks_chain t h.ws).1
+
+theorem indentLines_false (init subs : Str) : ∀ (bs : List Str),
+    indentLines init subs false bs = bs.map (subs ++ ·)
+  | [] => rfl
+  | b :: bs => by simp [indentLines, indentLines_false init subs bs]
+
+theorem indentLines_cons (init subs : Str) (first : Bool) (b : Str) (bs : List Str) :
+    indentLines init subs first (b :: bs) = ((if first = true then init else subs) ++ b) :: bs.map (subs ++ ·) := by
+  simp [indentLines, indentLines_false]
+
+/-- a well-formed continuation data line -/
+structure ContLine (x : Str) : Prop where
+  nonblank : isBlankLine x = false
+  indented : isIndented x = true
+  noamp : '&' ∉ (splitDollar x).1
+
+theorem ContLine.not_comment {x : Str} (h : ContLine x) : isCommentCard x = false :=
+  not_comment_of_indented x h.indented
+
+theorem fileWords_blanks (n : Nat) : Spec.File.words (blanks n) = [] := by
+  have := fileWords_reader.blanks n []
+  simpa [fileWords_reader.nil] using this
+
+/-- a line `     $ y`: a continuation line without data whose `$` comment is `y` -/
+theorem dollarLine_facts (y : Str) :
+    ContLine (blanks 5 ++ '$' :: y) ∧ cw (blanks 5 ++ '$' :: y) = [] ∧ ccm (blanks 5 ++ '$' :: y) = [] ∧
+      cdl (blanks 5 ++ '$' :: y) = sq y := by
+  have hnd : '$' ∉ blanks 5 := by decide
+  have hsd := splitDollar_append (blanks 5) y hnd
+  have hind := isIndented_blanks5 ('$' :: y)
+  have hnc := not_comment_of_indented _ hind
+  refine ⟨⟨?_, hind, ?_⟩, ?_, ?_, ?_⟩
+  · exact not_fileBlank_of_mem _ '$' (by simp) (by decide)
+  · rw [hsd]; show '&' ∉ blanks 5; decide
+  · simp [cw, hnc, hsd, fileWords_blanks]
+  · simp [ccm, hnc]
+  · simp [cdl, hnc, hsd]
+
+theorem clean_cons_dollar {t : Str} (h : Clean t) : Clean ('$' :: t) := by
+  intro c hc hs
+  simp only [List.mem_cons] at hc
+  rcases hc with rfl | hc
+  · exact absurd hs (by decide)
+  · exact h c hc hs
+
+/-- the lines a `$` comment is moved to when it does not fit behind its data: continuation lines without data
+    that together carry the comment -/
+theorem dollarLines (W : Nat) (hW : 7 < W) (t : Str) (hcl : Clean t) :
+    textwrapWrap W (blanks 5) (blanks 5 ++ ['$', ' ']) ('$' :: t) ≠ [] ∧
+    (∀ x ∈ textwrapWrap W (blanks 5) (blanks 5 ++ ['$', ' ']) ('$' :: t), ContLine x ∧ cw x = [] ∧ ccm x = []) ∧
+    ((textwrapWrap W (blanks 5) (blanks 5 ++ ['$', ' ']) ('$' :: t)).map cdl).flatten = sq t := by
+  have hcl' := clean_cons_dollar hcl
+  unfold textwrapWrap
+  rw [munge_clean _ hcl']
+  obtain ⟨bodies, hb1, hb2, hb3⟩ := wrapChunks_bodies W (blanks 5) (blanks 5 ++ ['$', ' ']) (by simp [blanks]; omega)
+    (by simp [blanks]; omega) true (splitChunks ('$' :: t)) (splitChunks_ne _ hcl')
+  rw [splitChunks_flatten] at hb2
+  rw [hb1]
+  cases bodies with
+  | nil => simp at hb2
+  | cons b0 bs =>
+    have hb0 : b0 ≠ [] := hb3 b0 List.mem_cons_self
+    cases b0 with
+    | nil => exact absurd rfl hb0
+    | cons x b0' =>
+      simp only [List.flatten_cons, List.cons_append, List.cons.injEq] at hb2
+      obtain ⟨hx, hrest⟩ := hb2
+      subst hx
+      rw [indentLines_cons]
+      simp only [if_true]
+      refine ⟨by simp, ?_, ?_⟩
+      · intro y hy
+        simp only [List.mem_cons, List.mem_map] at hy
+        rcases hy with rfl | ⟨b, _, rfl⟩
+        · have := dollarLine_facts b0'
+          exact ⟨this.1, this.2.1, this.2.2.1⟩
+        · have := dollarLine_facts (' ' :: b)
+          simp only [List.append_assoc, List.cons_append, List.nil_append]
+          exact ⟨this.1, this.2.1, this.2.2.1⟩
+      · simp only [List.map_cons, List.flatten_cons, List.map_map]
+        rw [(dollarLine_facts b0').2.2.2]
+        have : ∀ (l : List Str), ((l.map (cdl ∘ fun b => (blanks 5 ++ ['$', ' ']) ++ b)).flatten) = sq l.flatten := by
+          intro l
+          induction l with
+          | nil => rfl
+          | cons b l ih =>
+            simp only [List.map_cons, List.flatten_cons, Function.comp, ih, sq_append]
+            have := (dollarLine_facts (' ' :: b)).2.2.2
+            simp only [List.append_assoc, List.cons_append, List.nil_append] at this ⊢
+            rw [this, sq_blank_cons]
+        rw [this, ← sq_append, hrest]
+
+theorem mem_indentLines (init subs : Str) : ∀ (first : Bool) (bodies : List Str) (x : Str),
+    x ∈ indentLines init subs first bodies → ∃ b ∈ bodies, x = init ++ b ∨ x = subs ++ b
+  | _, [], x, h => by simp [indentLines] at h
+  | first, b :: bs, x, h => by
+    simp only [indentLines, List.mem_cons] at h
+    rcases h with rfl | h
+    · refine ⟨b, List.mem_cons_self, ?_⟩
+      split
+      · exact Or.inl rfl
+      · exact Or.inr rfl
+    · obtain ⟨b', hb', hx⟩ := mem_indentLines init subs false bs x h
+      exact ⟨b', List.mem_cons_of_mem _ hb', hx⟩
+
+theorem body_mem_indentLines (init subs : Str) : ∀ (first : Bool) (bodies : List Str) (b : Str),
+    b ∈ bodies → ∃ x ∈ indentLines init subs first bodies, ∃ ind, x = ind ++ b
+  | _, [], b, h => by simp at h
+  | first, b0 :: bs, b, h => by
+    simp only [List.mem_cons] at h
+    rcases h with rfl | h
+    · exact ⟨(if first = true then init else subs) ++ b, by simp [indentLines], _, rfl⟩
+    · obtain ⟨x, hx, ind, hind⟩ := body_mem_indentLines init subs false bs b h
+      exact ⟨x, by simp [indentLines, hx], ind, hind⟩
+
+theorem blank_of_clean_not_strip (x : Str) (hcl : Clean x) (h : stripNonEmpty x = false) : x = blanks x.length := by
+  induction x with
+  | nil => rfl
+  | cons c t ih =>
+    simp only [stripNonEmpty, List.any_cons, Bool.or_eq_false_iff, Bool.not_eq_false'] at h
+    have hc : c = ' ' := hcl c List.mem_cons_self h.1
+    subst hc
+    have := ih hcl.tail (by simpa [stripNonEmpty] using h.2)
+    simp only [List.length_cons, blanks, List.replicate_succ]
+    rw [← blanks, ← this]
+
+theorem flatten_map_filter {α β} (p : α → Bool) (f : α → List β) : ∀ (L : List α),
+    (∀ x ∈ L, p x = false → f x = []) → ((L.filter p).map f).flatten = (L.map f).flatten
+  | [], _ => rfl
+  | x :: L, h => by
+    have ih := flatten_map_filter p f L (fun y hy => h y (List.mem_cons_of_mem _ hy))
+    by_cases hp : p x = true
+    · simp [List.filter_cons, hp, ih]
+    · have hp' : p x = false := by simpa using hp
+      simp [List.filter_cons, hp', ih, h x List.mem_cons_self hp']
+
+theorem tail_filter_subset {α} (p : α → Bool) : ∀ (L : List α), ∀ x ∈ (L.filter p).tail, x ∈ L.tail
+  | [], x, h => by simp at h
+  | a :: L, x, h => by
+    by_cases hp : p a = true
+    · simp only [List.filter_cons, hp, if_true, List.tail_cons] at h
+      exact (List.mem_filter.mp h).1
+    · simp only [List.filter_cons, hp, Bool.false_eq_true, if_false] at h
+      have : x ∈ L.filter p := List.mem_of_mem_tail h
+      exact (List.mem_filter.mp this).1
+
+theorem grouped_nil_chunks (W : Nat) (init subs : Str) (first : Bool) (lines : List Str)
+    (h : Grouped W init subs first [] lines) : lines = [] := by
+  cases lines with
+  | nil => rfl
+  | cons l ls =>
+    obtain ⟨g, rest, hg, hch, _⟩ := h
+    have : g = [] := by
+      have := congrArg List.length hch
+      simp at this
+      exact List.eq_nil_of_length_eq_zero (by omega)
+    exact absurd this hg
+
+theorem isIndented_all_blank (p : Str) (hall : p = blanks p.length) (h : 5 ≤ p.length) : isIndented p = true := by
+  rw [hall]
+  simp only [isIndented]
+  have : (blanks p.length).all (· = ' ') = true := by simp [blanks]
+  rw [all_blank_takeWhile _ this]
+  simp [length_blanks, h]
+
+/-- the data lines of a wrapped line (`ret` in `_wrap_line`): every one non-blank and without `$`/`&`, all but the
+    first indented, the first one indented exactly when the data is, and together they hold the words of the data -/
+theorem dataLines (W : Nat) (hW : 7 < W) (d : Str) (hcl : Clean d) (hlong : NoLongChunk W 0 5 d)
+    (hamp : '&' ∉ d) (hdol : '$' ∉ d) :
+    (∀ x ∈ (textwrapWrap W [] (blanks 5) d).filter stripNonEmpty, isBlankLine x = false ∧ '$' ∉ x ∧ '&' ∉ x) ∧
+    (∀ x ∈ ((textwrapWrap W [] (blanks 5) d).filter stripNonEmpty).tail, isIndented x = true) ∧
+    (((textwrapWrap W [] (blanks 5) d).filter stripNonEmpty).map Spec.File.words).flatten = Spec.File.words d ∧
+    (∀ o os, (textwrapWrap W [] (blanks 5) d).filter stripNonEmpty = o :: os →
+      isIndented o = isIndented d ∧ (isCommentCard o = isCommentCard d ∨ isIndented o = true)) ∧
+    (stripNonEmpty d = true → (textwrapWrap W [] (blanks 5) d).filter stripNonEmpty ≠ []) := by
+  have hind := C10_indent W [] (blanks 5) d
+  have hwords := C10_words_file W 0 5 d hlong
+  have h0 : blanks 0 = ([] : Str) := rfl
+  rw [h0] at hwords
+  unfold textwrapWrap at hind hwords ⊢
+  rw [munge_clean _ hcl] at hind hwords ⊢
+  have hb : ∀ c ∈ splitChunks d, c.length ≤ W - ([] : Str).length ∧ c.length ≤ W - (blanks 5).length := by
+    simpa [NoLongChunk, munge_clean _ hcl, length_blanks] using hlong
+  have hgr := wrapChunks_grouped W [] (blanks 5) true (splitChunks d) hb
+  obtain ⟨bodies, hb1, hb2, hb3⟩ := wrapChunks_bodies W [] (blanks 5) (by simp; omega) (by simp [blanks]; omega) true
+    (splitChunks d) (splitChunks_ne _ hcl)
+  rw [splitChunks_flatten] at hb2
+  generalize hL : wrapChunks W [] (blanks 5) true (splitChunks d) = lines0 at *
+  have hb5 : blanks 5 = [' ', ' ', ' ', ' ', ' '] := rfl
+  -- characters of the lines
+  have hchars : ∀ x ∈ lines0, ∀ c ∈ x, c = ' ' ∨ c ∈ d := by
+    intro x hx c hc
+    rw [hb1] at hx
+    obtain ⟨b, hb, hxb⟩ := mem_indentLines _ _ _ _ x hx
+    have hbd : ∀ c ∈ b, c ∈ d := by
+      intro c hc; rw [← hb2]; exact List.mem_flatten.mpr ⟨b, hb, hc⟩
+    rcases hxb with rfl | rfl
+    · exact Or.inr (hbd c (by simpa using hc))
+    · rcases List.mem_append.mp hc with h | h
+      · left; rw [hb5] at h; simpa using h
+      · exact Or.inr (hbd c h)
+  have hclean : ∀ x ∈ lines0, Clean x := by
+    intro x hx c hc hs
+    rcases hchars x hx c hc with h | h
+    · exact h
+    · exact hcl c h hs
+  refine ⟨?_, ?_, ?_, ?_, ?_⟩
+  · intro x hx
+    obtain ⟨hx1, hx2⟩ := List.mem_filter.mp hx
+    refine ⟨not_fileBlank_of_stripNonEmpty x hx2, ?_, ?_⟩
+    · intro h; rcases hchars x hx1 _ h with h | h
+      · exact absurd h (by decide)
+      · exact hdol h
+    · intro h; rcases hchars x hx1 _ h with h | h
+      · exact absurd h (by decide)
+      · exact hamp h
+  · intro x hx
+    have := tail_filter_subset stripNonEmpty lines0 x hx
+    obtain ⟨t, ht⟩ := hind x this
+    rw [← ht]; exact isIndented_blanks5 t
+  · rw [flatten_map_filter stripNonEmpty Spec.File.words lines0, hwords]
+    intro x hx hs
+    rw [blank_of_clean_not_strip x (hclean x hx) hs]
+    exact fileWords_blanks _
+  · intro o os hret
+    cases lines0 with
+    | nil => simp at hret
+    | cons l0 ls =>
+      obtain ⟨g, rest, hgne, hch, hl0, hbound, hrest⟩ := hgr
+      simp only [if_true, List.nil_append, List.length_nil, Nat.zero_add] at hl0 hbound
+      have hd : d = l0 ++ rest.flatten := by
+        rw [← splitChunks_flatten d, hch, List.flatten_append, hl0]
+      have hlen : rest ≠ [] → 6 ≤ l0.length := by
+        intro hr
+        cases rest with
+        | nil => exact absurd rfl hr
+        | cons c r =>
+          have h1 := hbound c rfl
+          have h2 : c.length ≤ W - 5 := by
+            have := (hb c (by rw [hch]; simp)).2
+            simpa [length_blanks] using this
+          rw [← hl0] at h1
+          omega
+      by_cases hk : stripNonEmpty l0 = true
+      · simp only [List.filter_cons, hk, if_true, List.cons.injEq] at hret
+        obtain ⟨rfl, _⟩ := hret
+        by_cases hr : rest = []
+        · subst hr
+          simp only [List.flatten_nil, List.append_nil] at hd
+          subst hd
+          exact ⟨rfl, Or.inl rfl⟩
+        · have h6 := hlen hr
+          rw [hd]
+          exact ⟨(isIndented_prefix _ _ (by omega)).symm, Or.inl (isCommentCard_prefix _ _ h6).symm⟩
+      · have hk' : stripNonEmpty l0 = false := by simpa using hk
+        simp only [List.filter_cons, hk', Bool.false_eq_true, if_false] at hret
+        have ho : o ∈ ls := by
+          have : o ∈ ls.filter stripNonEmpty := by rw [hret]; exact List.mem_cons_self
+          exact (List.mem_filter.mp this).1
+        have hoi : isIndented o = true := by
+          obtain ⟨t, ht⟩ := hind o (by simpa using ho)
+          rw [← ht]; exact isIndented_blanks5 t
+        have hr : rest ≠ [] := by
+          intro hr; subst hr
+          have := grouped_nil_chunks _ _ _ _ _ hrest
+          rw [this] at ho; simp at ho
+        have h6 := hlen hr
+        have hbl := blank_of_clean_not_strip l0 (hclean l0 List.mem_cons_self) hk'
+        refine ⟨?_, Or.inr hoi⟩
+        rw [hoi, hd, isIndented_prefix _ _ (by omega), isIndented_all_blank l0 hbl (by omega)]
+  · intro hs
+    simp only [stripNonEmpty, List.any_eq_true, Bool.not_eq_true'] at hs
+    obtain ⟨c, hc, hcs⟩ := hs
+    rw [← hb2] at hc
+    obtain ⟨b, hb, hcb⟩ := List.mem_flatten.mp hc
+    obtain ⟨x, hx, ind, hxi⟩ := body_mem_indentLines [] (blanks 5) true bodies b hb
+    rw [← hb1] at hx
+    have : x ∈ lines0.filter stripNonEmpty := by
+      apply List.mem_filter.mpr
+      refine ⟨hx, ?_⟩
+      simp only [stripNonEmpty, List.any_eq_true, Bool.not_eq_true']
+      exact ⟨c, by rw [hxi]; exact List.mem_append_right _ hcb, hcs⟩
+    intro h; rw [h] at this; simp at this
+
 end MontePyVerif.C10
